@@ -40,6 +40,7 @@ type flatVal struct {
 	bytes []byte      // bytesN, Vector/List[uint8], Bitvector, Bitlist
 	roots []tree.Root // Vector/List[bytes32]
 	elems []*flatVal  // other vectors and lists, container fields
+	vals  []flatVal   // backing store of a decoded list's elements (see Deserialize)
 	sel   uint8       // union selector
 	inner *flatVal    // union value; nil = None
 }
@@ -253,12 +254,19 @@ func (f *flatVal) Deserialize(dr *codec.DecodingReader) error {
 			return f.elems[i].asDes()
 		}, flatFixedLen(t.Elem), t.N)
 	case frList:
-		f.elems = f.elems[:0]
-		return dr.List(func() codec.Deserializable {
-			e := newFlat(t.Elem)
-			f.elems = append(f.elems, e)
-			return e.asDes()
+		// the usual downstream pattern: a slice of element VALUES grown by append, add() handing
+		// out the address of the newest element (earlier addresses go stale when the slice grows)
+		vals := f.vals[:0]
+		err := dr.List(func() codec.Deserializable {
+			vals = append(vals, *newFlat(t.Elem))
+			return vals[len(vals)-1].asDes()
 		}, flatFixedLen(t.Elem), t.N)
+		f.vals = vals
+		f.elems = f.elems[:0]
+		for i := range vals {
+			f.elems = append(f.elems, &vals[i])
+		}
+		return err
 	case frFixedContainer:
 		return dr.FixedLenContainer(f.desFields()...)
 	case frContainer:
